@@ -21,6 +21,7 @@ func init() {
 }
 
 func runC11(c *Ctx) {
+	defer borrow(c, runC12, "C12.2", "C11.27", "", "no node over capacity and every cell where the layout puts it: the page-layout arithmetic over the extracted grammar and the declared constants holds (C12.2) — a cell size constant that counts a field too narrow lets a node outgrow its page")
 	defer c04FlushOrder(c, "C11.25")
 	defer func() {
 		c.Rule("C11.26", "the tree read back from disk is the tree that was written: the page codecs are symmetric item by item — both sibling links, the rightmost child, every cell (C12.1)")
